@@ -54,34 +54,58 @@ struct Obs {
 inline Obs& obs() { static Obs o; return o; }
 
 // ------------------------------------------------------------------------------------------------ Tracked element
-struct Tracked {
+// Flavor 0: every special member may throw (the default).  Flavor 1: move assignment is noexcept (and never faulted) while move construction may throw.
+// Flavor 2: move construction is noexcept while move assignment may throw.  (Library code that picks a rollback strategy from one trait while executing the
+// other operation is only visible with such asymmetric element types.)
+template<int Flavor>
+struct TrackedT {
+	using Tracked = TrackedT;
 	int v;
 
 	void born(char const* how) { if(!obs().alive.insert(this).second) { obs().error(std::string("element constructed over a live object (") + how + ")"); } }
 	static void must_live(Tracked const* p, char const* how) { if(obs().alive.count(p) == 0) { obs().error(std::string("dead or unconstructed element used: ") + how); } }
 
-	Tracked() : v(0) { if(obs().event(32, "default-ctor")) { throw InjectedFault{}; } born("default"); ++obs().ctor_default; }
-	Tracked(int x) : v(x) { born("value"); ++obs().ctor_value; }  // NOLINT implicit: convertible from int
-	Tracked(Tracked const& o) : v(o.v) { must_live(&o, "copy-construct from"); if(obs().event(2, "copy-ctor")) { throw InjectedFault{}; } born("copy"); ++obs().ctor_copy; }
-	Tracked(Tracked&& o) : v(o.v) { must_live(&o, "move-construct from"); if(obs().event(4, "move-ctor")) { throw InjectedFault{}; } born("move"); ++obs().ctor_move; o.v = -1; }  // NOLINT not noexcept on purpose
+	TrackedT() : v(0) { if(obs().event(32, "default-ctor")) { throw InjectedFault{}; } born("default"); ++obs().ctor_default; }
+	TrackedT(int x) : v(x) { born("value"); ++obs().ctor_value; }  // NOLINT implicit: convertible from int
+	TrackedT(Tracked const& o) : v(o.v) { must_live(&o, "copy-construct from"); if(obs().event(2, "copy-ctor")) { throw InjectedFault{}; } born("copy"); ++obs().ctor_copy; }
+	TrackedT(Tracked&& o) noexcept(Flavor == 2) : v(o.v) { must_live(&o, "move-construct from"); if constexpr(Flavor != 2) { if(obs().event(4, "move-ctor")) { throw InjectedFault{}; } } born("move"); ++obs().ctor_move; o.v = -1; }  // NOLINT not noexcept on purpose
 	auto operator=(Tracked const& o) -> Tracked& {
 		must_live(this, "copy-assign to"); must_live(&o, "copy-assign from");
 		if(obs().event(8, "copy-assign")) { throw InjectedFault{}; }
 		v = o.v; ++obs().assign_copy; return *this;
 	}
-	auto operator=(Tracked&& o) -> Tracked& {  // NOLINT not noexcept on purpose
+	auto operator=(Tracked&& o) noexcept(Flavor == 1) -> Tracked& {  // NOLINT not noexcept on purpose
 		must_live(this, "move-assign to"); must_live(&o, "move-assign from");
-		if(obs().event(16, "move-assign")) { throw InjectedFault{}; }
+		if constexpr(Flavor != 1) { if(obs().event(16, "move-assign")) { throw InjectedFault{}; } }
 		v = o.v; if(&o != this) { o.v = -1; } ++obs().assign_move; return *this;
 	}
-	~Tracked() { if(obs().alive.erase(this) == 0) { obs().error("element destroyed twice or never constructed"); } ++obs().dtor; v = -99; }
+	~TrackedT() { if(obs().alive.erase(this) == 0) { obs().error("element destroyed twice or never constructed"); } ++obs().dtor; v = -99; }
 
 	friend bool operator==(Tracked const& a, Tracked const& b) { return a.v == b.v; }
 	friend bool operator!=(Tracked const& a, Tracked const& b) { return a.v != b.v; }
 	friend bool operator<(Tracked const& a, Tracked const& b) { return a.v < b.v; }
 	explicit operator int() const { return v; }
 };
+using Tracked = TrackedT<0>;
+using TrackedNA = TrackedT<1>;  // nothrow move-assignable, throwing move constructor
+using TrackedNC = TrackedT<2>;  // nothrow move-constructible, throwing move assignment
+template<class T> struct is_tracked : std::false_type {};
+template<int F> struct is_tracked<TrackedT<F>> : std::true_type {};
 static_assert(!std::is_trivially_default_constructible_v<Tracked>);
+static_assert(std::is_nothrow_move_assignable_v<TrackedNA> && !std::is_nothrow_move_constructible_v<TrackedNA>);
+static_assert(std::is_nothrow_move_constructible_v<TrackedNC> && !std::is_nothrow_move_assignable_v<TrackedNC>);
+
+// trivially destructible and trivially copyable, but NOT trivially default constructible: new elements must be value-initialised (v == 77) although nothing needs to be
+// destroyed (the library chooses its shortcuts from these traits separately)
+struct Init {
+	int v = 77;
+	Init() = default;
+	Init(int x) : v(x) {}  // NOLINT implicit: convertible from int
+	friend bool operator==(Init const& a, Init const& b) { return a.v == b.v; }
+	friend bool operator!=(Init const& a, Init const& b) { return a.v != b.v; }
+	explicit operator int() const { return v; }
+};
+static_assert(std::is_trivially_destructible_v<Init> && std::is_trivially_copyable_v<Init> && !std::is_trivially_default_constructible_v<Init>);
 
 // trivially default-constructible element, to observe "sizing constructors do not write to trivial elements" with a painting allocator
 struct Pod { int v; };
